@@ -37,6 +37,9 @@ CLAIMED = {
   "C10": ("symbolic execution of the real spline set-up and evaluation code with numpy.linalg.solve replaced by its contract (unknowns c, A.c == B); subterms polynomially identical to a row of A.c are rewritten to the row's right-hand side, z3 decides the remaining identities; equivalence of the three constructions by memoised solve (equal systems -> equal unknowns)",
           "for all detach < (r_min <) attach, all end potentials (uninterpreted functions with arbitrary value/slope/curvature at the joins) and all r: C2 joins, zero slope and continuity at r_min, region dispatch, advertised shape; as.buck4 == spline() modifier == Python classes for all parameters",
           NOTE + "; LAPACK's accuracy and singular systems are outside the claim; trusted calculus: symx/jets.py", "3 C10"),
+  "C12": ("purity as an inductive step by symbolic execution: every variable of every custom form's symbol table is set to a fresh symbolic value (arbitrary history) before the real evaluation code runs on a validated cexprtk stub; z3 shows the value at r equals the formula with explicitly bound parameters for every evaluation order/interleaving; hash-order independence by replacing the builtin set in the EAM builder with a set whose iteration order is a symbolic permutation explored path by path (all EAM targets, output must be identical on all paths; differing paths replayed with potable under different PYTHONHASHSEED values in fresh processes)",
+          "for all pre-states, parameters and r the energy depends on definition and r only; for all set iteration orders one output; write-twice / build-twice / other-model-in-between / descending-order evaluation / fresh process with another hash seed give the same bytes (concrete layer over all 11 targets); shared default arguments unchanged",
+          NOTE + "; .xlsx compared at cell level (container clock fields outside); the repeat/history layer is concrete (real cexprtk) and complements the symbolic inductive step", "3 C12"),
   "C17": ("fault injection with a symbolic failing ordinal: every function evaluation compares its index with one symbolic integer k, the SYMX explorer splits on the z3-feasible classes of k (N+1, N discovered) through the real write()/action_tabulate code with a recording sink / real file; a z3 completeness VC shows the explored classes cover every integer k; each partial-output path is replayed with the model's concrete k",
           "for every tabulation target, every position k of the failing evaluation (pair, density, embedding, dipole, quadrupole functions) on the stated grids: nothing written and the exception propagates; no failure: whole table; large grids (size-dependent buffering) with k in a stated candidate set",
           "loop counts concrete per run (small grids exhaustive in k; large grids over a candidate set of k); failures modelled as exceptions leaving the callable; potable end-to-end runs on real files are a concrete replay layer", "3 C17"),
